@@ -142,6 +142,11 @@ static struct {
     bool nontrivial;
     bool over_budget;
     uint32_t eintr_per1024;
+    /* spin detection: one task polling one location while nobody else runs */
+    int spin_task;
+    int spin_kind;
+    const volatile void *spin_addr;
+    uint32_t spin_count;
 } S;
 
 int sim_verbose;
@@ -253,6 +258,8 @@ void sim_begin(uint64_t seed, struct sim_tape *tape, bool replay)
     S.nontrivial = false;
     S.over_budget = false;
     S.eintr_per1024 = 0;
+    S.spin_task = -1;
+    S.spin_count = 0;
     sim_point_observer = NULL;
     sim_point_enter = NULL;
     fixed_choices = false;
@@ -456,6 +463,15 @@ static int decide(const int *ids, int n)
             next = (int)v;
         else
             next = cur_ok ? cur : ids[0];
+    } else if (cur_ok && S.spin_count >= 24) {
+        /* the running task polls one location in a loop (a spin wait): no
+         * strategy may starve the task it is waiting for */
+        struct sim_rng *r = &S.sched_rng;
+        do
+            next = ids[sim_rng_below(r, (uint32_t)n)];
+        while (next == cur);
+        S.spin_count = 0;
+        tape_put(SIM_CH_SCHED, (uint32_t)next);
     } else {
         struct sim_rng *r = &S.sched_rng;
         switch (S.strategy) {
@@ -578,6 +594,14 @@ void sim_point(int kind, const volatile void *addr)
     S.steps++;
     t->last_kind = kind;
     t->last_addr = addr;
+    if (S.spin_task == S.cur && S.spin_kind == kind && S.spin_addr == addr && addr != NULL)
+        S.spin_count++;
+    else {
+        S.spin_task = S.cur;
+        S.spin_kind = kind;
+        S.spin_addr = addr;
+        S.spin_count = 0;
+    }
     yield_from_task();
     /* the announced access is executed right after we return */
     t->last_kind = 0;
@@ -673,7 +697,7 @@ enum sim_end sim_run(uint64_t step_budget)
 
 /* ------------------------------------------------- simulated descriptors */
 #define SIM_MAX_FDS 64
-static struct { bool open; uint64_t counter; } fds[SIM_MAX_FDS];
+static struct { bool open; uint64_t counter; uint32_t readers; } fds[SIM_MAX_FDS];
 static int fds_open;
 
 static void fd_reset(void)
@@ -688,6 +712,7 @@ int sim_fd_new(uint64_t initial)
         if (!fds[i].open) {
             fds[i].open = true;
             fds[i].counter = initial;
+            fds[i].readers = 0;
             fds_open++;
             return SIM_FD_BASE + i;
         }
@@ -699,6 +724,14 @@ bool sim_fd_valid(int fd)
 {
     return fd >= SIM_FD_BASE && fd < SIM_FD_BASE + SIM_MAX_FDS &&
            fds[fd - SIM_FD_BASE].open;
+}
+
+bool sim_fd_shared(int fd)
+{
+    if (!sim_fd_valid(fd))
+        return false;
+    uint32_t r = fds[fd - SIM_FD_BASE].readers;
+    return (r & (r - 1)) != 0;
 }
 
 bool sim_fd_readable(int fd)
@@ -729,6 +762,7 @@ int __wrap_eventfd_read(int fd, eventfd_t *value)
         errno = EINTR;
         return -1;
     }
+    fds[fd - SIM_FD_BASE].readers |= 1u << (S.cur + 1);
     if (fds[fd - SIM_FD_BASE].counter == 0) {
         errno = EAGAIN;
         sim_ev("fd_read_eagain", (uint64_t)(fd - SIM_FD_BASE), 0);
